@@ -127,6 +127,7 @@ namespace rpc {
                     LOG_ERROR_RETURN(EINVAL, -1, "context not issued");
                 if (args.phase == OooPhase::WAITING)
                     LOG_ERROR_RETURN(EINVAL, -1, "context already in waiting");
+                Timeout wait_tmo = args.timeout;
                 for (bool hold_lock = false; !hold_lock;) {
                     switch (args.phase) {                        
                         case OooPhase::COLLECTED:
@@ -143,7 +144,7 @@ namespace rpc {
                                     hold_lock = true;
                                     break;
                                 }
-                                auto ret = m_wait.wait(args.phaselock, args.timeout);
+                                auto ret = m_wait.wait(args.phaselock, wait_tmo);
                                 // Check if collected
                                 if (args.phase == OooPhase::COLLECTED &&
                                     args.th == CURRENT) {
@@ -151,12 +152,20 @@ namespace rpc {
                                 }
                                 if (ret == -1) {
                                     // or just timed out
+                                    bool claimed;
                                     {
                                         SCOPED_LOCK(m_mutex_map);
-                                        m_map.erase(args.tag);
+                                        // tag already gone: the reader has taken this context
+                                        // out of the map and is collecting into it right now
+                                        claimed = (m_map.erase(args.tag) == 0);
                                         m_cond_collected.notify_one();
                                     }
-                                    LOG_ERROR_RETURN(ETIMEDOUT, -1, "waiting for completion timeout");
+                                    if (!claimed)
+                                        LOG_ERROR_RETURN(ETIMEDOUT, -1, "waiting for completion timeout");
+                                    // the context and its buffers must outlive the collection:
+                                    // wait (no deadline) until the reader marks it COLLECTED
+                                    // and interrupts us
+                                    wait_tmo = Timeout();
                                 }
                                 break;
                             }
